@@ -105,7 +105,8 @@ def native_replay(gosmt, mpath, m, entry, replay_path, timeout=600):
         os.makedirs(ntmp, exist_ok=True)
         env = dict(GOENV, VERIF_REPLAY=os.path.abspath(replay_path), VERIF_ENTRY=entry, TMPDIR=ntmp)
         try:
-            r = subprocess.run(["go", "test", "-vet=off", "-count=1", "-overlay", ov, "-run", "^TestVerifReplay$", "-v", "./" + m["package"]],
+            tags = ["-tags", m["tags"]] if m.get("tags") else []
+            r = subprocess.run(["go", "test", "-vet=off", "-count=1"] + tags + ["-overlay", ov, "-run", "^TestVerifReplay$", "-v", "./" + m["package"]],
                                cwd=REPO, env=env, capture_output=True, text=True, timeout=timeout)
         except subprocess.TimeoutExpired:
             return "error", "native replay timed out"
